@@ -8,22 +8,10 @@ Local Open Scope N_scope.
 Definition E0 : env := {| e_json := fun _ => None; e_line := fun _ => {| lo_h := HExc; lo_err := [34; 34] |} |}.
 
 (* full-strength statement that fails: the error reply to ANY undecodable line names the action of the request
-   and echoes its specifier, i.e.
+   and echoes its specifier (proved in Echo.v / Properties.C07_decode_error_echo_partial for lines that are ASCII
+   after stripping; the leading-blank defect of the pinned tree was repaired in b6f37c1), i.e.
      forall E i line a s, next_message E line = None -> request_fields line = Some (a, s) ->
        exists pre d c, answer E i line = (OReply pre (ERRORPREFIX ++ a, s', d), c) /\ or_empty s' = or_empty s *)
-
-(* " read x {bad": decode_msg strips the blank, the error branch splits the unstripped line:
-   reply action "error_" and specifier "read" instead of "error_read" and "x" *)
-Definition line_blank : bytes := [32; 114; 101; 97; 100; 32; 120; 32; 123; 98; 97; 100].
-Theorem C07_refuted_leading_blank : exists E line a s r,
-  next_message E line = None /\ request_fields line = Some (a, s) /\
-  fst (answer E 0 line) = OReply [] r /\
-  fst (fst r) <> ERRORPREFIX ++ a /\ snd (fst r) <> s.
-Proof.
-  exists E0, line_blank, [114; 101; 97; 100], (Some [120]),
-    (ERRORPREFIX, Some [114; 101; 97; 100], Some (err_data decode_error_name [34; 34])).
-  vm_compute. repeat split; try reflexivity; intro H; discriminate H.
-Qed.
 
 (* "r\xc3\xa9ad m {bad" (action with a valid non-ASCII character, broken JSON): the error branch reads the raw line as
    latin-1, the reply names the action "rÃ©ad" *)
